@@ -23,9 +23,12 @@ RMul(a, b)  == LET g1 == Gcd(RAbs(a[1]), b[2])  g2 == Gcd(RAbs(b[1]), a[2])
                Norm((a[1] \div h1) * (b[1] \div h2), (a[2] \div h2) * (b[2] \div h1))
 RDiv(a, b)  == RMul(a, IF b[1] < 0 THEN <<0 - b[2], 0 - b[1]>> ELSE <<b[2], b[1]>>)          \* b # 0
 RNeg(a)     == <<0 - a[1], a[2]>>
-RLt(a, b)   == a[1] * b[2] < b[1] * a[2]
-RLe(a, b)   == a[1] * b[2] <= b[1] * a[2]
-REq(a, b)   == a[1] * b[2] = b[1] * a[2]
+\* comparisons over the least common denominator (smaller products than plain cross-multiplication)
+CmpL(a, b)  == a[1] * (b[2] \div Gcd(a[2], b[2]))
+CmpR(a, b)  == b[1] * (a[2] \div Gcd(a[2], b[2]))
+RLt(a, b)   == CmpL(a, b) < CmpR(a, b)
+RLe(a, b)   == CmpL(a, b) <= CmpR(a, b)
+REq(a, b)   == CmpL(a, b) = CmpR(a, b)
 RIsZero(a)  == a[1] = 0
 RAbsR(a)    == <<RAbs(a[1]), a[2]>>
 RSq(a)      == RMul(a, a)
